@@ -150,11 +150,11 @@ PROPS["C05"] = {
     "technique": "Lean 4: complete kernel enumeration of the secret-key field codec (all widths x all in-range values), keygen range guards (re-extracted) imply the format's range; whole-object round-trip theorems for public keys (all canonical vectors), secret keys (all in-range f, g, F; both build modes; sizes) and signatures; executed by the real code and by the model per generated key",
     "rule": "ops = per variant: keygen + to_bytes/from_bytes round trip of sk, pk and a signature with sizes, the decoded key signs and the original pk verifies (seeds incl. those of finding F8); for each key a traced op in which the Lean model encodes (f,g,F), compares with the real bytes, decodes them and recomputes G; the generated pk through the format model; key objects built from boundary field values (+-(2^(w-1)-1), 0) through the real encoder/decoder; distinct by op line; all judged",
     "exhaustive": {"quick": (False, "field codec enumerated completely in the theorem; keys sampled"), "thorough": (False, "")},
-    "level_text": "Machine-checked: every in-range value of every field width (5, 6, 8 bits) round-trips through the field codec and the reserved pattern is the only exception (complete enumeration); ntru_gen's guards (constants re-extracted from math.rs) put every accepted f, g, F, G inside that range for both variants; a signature re-decodes to itself; sizes 1281/897/666 and 2305/1793/1280. Whole objects: public_key_roundtrip (every canonical vector of length N encodes to 897/1793 bytes and decodes to itself) and secret_key_roundtrip (every (f, g, F) inside the guards' range serialises without overflow in both build modes to 1281/2305 bytes and decodes to the same residues). The recomputed G and the rebuilt key object are executed per generated key by the real code and reproduced by the model.",
-    "level_note": "Trusted: Lean kernel; translator; G = g*F/f mod q equals the generated G because of the NTRU equation and |G| <= 127 (checked per key).",
+    "level_text": "Machine-checked: every in-range value of every field width (5, 6, 8 bits) round-trips through the field codec and the reserved pattern is the only exception (complete enumeration); ntru_gen's guards (constants re-extracted from math.rs) put every accepted f, g, F, G inside that range for both variants; a signature re-decodes to itself; sizes 1281/897/666 and 2305/1793/1280. Whole objects: public_key_roundtrip (every canonical vector of length N encodes to 897/1793 bytes and decodes to itself) and secret_key_roundtrip (every (f, g, F) inside the guards' range serialises without overflow in both build modes to 1281/2305 bytes and decodes to the same residues). recomputed_G_is_G: the fourth polynomial, which from_bytes recomputes as intt(ntt g * (ntt f)^-1 * ntt F) with the batch inversion, is exactly G for every key with f*G - g*F = q over Z, NTT-invertible f and |G_i| <= 127 (the NTRU equation evaluated at every root of X^n+1 in Z_q; no panic in either build mode). Executed per generated key by the real code and reproduced by the model.",
+    "level_note": "Trusted: Lean kernel; translator; the construction of the key object (FFT of the basis, LDL tree) after decoding is floating-point code, executed not proved.",
     "trusted_base": TB_COMMON,
     "assumptions": [],
-    "not_proved": ["the recomputed G equals the generated G for every key (follows from the NTRU equation and |G| <= 127; checked per key)", "every seed yields an in-range key (the guards reject others; termination of the retry loop is probabilistic)"],
+    "not_proved": ["every seed yields an in-range key (the guards reject others; termination of the retry loop is probabilistic)"],
     "release_too": False,
     "parallel_model": True,
     "run_timeout": {"quick": 900, "thorough": 3000},
